@@ -5,7 +5,8 @@
 
 package schema
 
-//@ spec wf(l *lexer) bool = l != nil && 0 <= l.start && l.start <= l.pos && l.pos <= len(l.input) && 0 <= l.width && l.width <= 4 && l.items != nil
+//@ spec wf(l *lexer) bool = l != nil && 0 <= l.start && l.start <= l.pos && l.pos <= len(l.input) && 0 <= l.width && l.width <= 4 && l.items != nil && chancap(l.items) >= 1
+//@ spec pending(l *lexer) int = sent(l.items) - recvd(l.items)
 //@ spec canBackup(l *lexer) bool = l.start <= l.pos - l.width
 
 //@ func (*lexer).next
@@ -37,11 +38,12 @@ package schema
 
 //@ func (*lexer).emit
 //@   props C12
-//@   requires wf(l)
+//@   opt send-nonblocking
+//@   requires wf(l) && pending(l) < chancap(l.items)
 //@   modifies l.start, chanstate(l.items)
 //@   ensures wf(l)
 //@   ensures l.start == l.pos
-//@   ensures sent(l.items) == old(sent(l.items)) + 1
+//@   ensures sent(l.items) == old(sent(l.items)) + 1 && recvd(l.items) == old(recvd(l.items))
 
 //@ func (*lexer).ignore
 //@   props C12
@@ -65,3 +67,98 @@ package schema
 //@   ensures l.pos >= old(l.pos)
 //@   loop 1 invariant wf(l) && l.pos >= old(l.pos)
 //@   loop 1 decreases len(l.input) - l.pos
+
+//@ func (*lexer).errorf
+//@   props C12
+//@   opt send-nonblocking
+//@   requires wf(l) && pending(l) < chancap(l.items)
+//@   modifies chanstate(l.items)
+//@   ensures wf(l)
+//@   ensures result == nil
+//@   ensures sent(l.items) == old(sent(l.items)) + 1 && recvd(l.items) == old(recvd(l.items))
+
+//@ func (*lexer).scanIdentifier
+//@   props C12
+//@   requires wf(l)
+//@   modifies l.pos, l.width
+//@   ensures wf(l)
+//@   ensures l.pos >= old(l.pos)
+
+//@ func (*lexer).scanCommentBegin
+//@   props C12
+//@   requires wf(l)
+//@   modifies l.pos
+//@   ensures wf(l)
+//@   ensures l.pos >= old(l.pos)
+//@   ensures result0 ==> (result1 == lexLineComment || result1 == lexBlockComment)
+//@   ensures !result0 ==> l.pos == old(l.pos)
+
+// ---- the state-function protocol -------------------------------------------
+// Every value of type stateFn obeys this type-level contract. The lexer and the
+// parser run in ONE goroutine (assumption, see DESIGN.md): a state function is
+// called only when the item queue is empty, sends at most one item (so a send
+// never blocks on the buffered channel), and either sends or hands over to a
+// state function of strictly lower rank - hence nextItem terminates after at
+// most two state-function calls per item.
+
+//@ ghost rank(int) int
+//@ axiom rank_nonneg: forall f int :: rank(f) >= 0
+//@ axiom rank_nil: rank(nil) == 0
+//@ axiom rank_lexCode: rank(lexCode) == 2
+//@ axiom rank_lexLineComment: rank(lexLineComment) == 1
+//@ axiom rank_lexBlockComment: rank(lexBlockComment) == 1
+//@ axiom rank_lexStringLiteral: rank(lexStringLiteral) == 1
+
+//@ func functype::func(*schema.lexer) schema.stateFn
+//@   requires wf(arg0) && pending(arg0) == 0
+//@   modifies arg0.pos, arg0.width, arg0.start, chanstate(arg0.items)
+//@   ensures wf(arg0)
+//@   ensures recvd(arg0.items) == old(recvd(arg0.items))
+//@   ensures sent(arg0.items) == old(sent(arg0.items)) || sent(arg0.items) == old(sent(arg0.items)) + 1
+//@   ensures sent(arg0.items) == old(sent(arg0.items)) ==> result != nil && rank(result) < rank(self)
+//@   ensures result != nil ==> rank(result) >= 1
+//@   ensures arg0.pos >= old(arg0.pos)
+
+//@ func lexCode
+//@   props C12
+//@   like functype::func(*schema.lexer) schema.stateFn
+
+//@ func lexLineComment
+//@   props C12
+//@   like functype::func(*schema.lexer) schema.stateFn
+//@   loop 1 invariant wf(l) && pending(l) == 0 && l.pos >= old(l.pos) && sent(l.items) == old(sent(l.items)) && recvd(l.items) == old(recvd(l.items))
+//@   loop 1 decreases len(l.input) - l.pos
+
+//@ func lexBlockComment
+//@   props C12
+//@   like functype::func(*schema.lexer) schema.stateFn
+//@   loop 1 invariant wf(l) && pending(l) == 0 && l.pos >= old(l.pos) && sent(l.items) == old(sent(l.items)) && recvd(l.items) == old(recvd(l.items)) && (r == eof ==> l.pos >= len(l.input)) && r >= -1
+//@   loop 1 decreases 2 * (len(l.input) - l.pos) + (r == eof ? 0 : 1)
+
+//@ func lexStringLiteral
+//@   props C12
+//@   like functype::func(*schema.lexer) schema.stateFn
+//@   loop 1 invariant wf(l) && pending(l) == 0 && l.pos >= old(l.pos) && sent(l.items) == old(sent(l.items)) && recvd(l.items) == old(recvd(l.items))
+//@   loop 1 decreases len(l.input) - l.pos
+
+//@ chaninv schema.item: msg.Start >= 0 && msg.Start <= msg.End
+
+//@ func (*lexer).nextItem
+//@   props C12
+//@   opt single-goroutine-chan
+//@   requires wf(l) && pending(l) == 0
+//@   modifies l.pos, l.width, l.start, l.state, chanstate(l.items)
+//@   ensures wf(l) && pending(l) == 0
+//@   ensures result.Start >= 0 && result.Start <= result.End
+//@   ensures l.pos >= old(l.pos)
+//@   loop 1 invariant wf(l) && 0 <= pending(l) && pending(l) <= 1 && l.pos >= old(l.pos)
+//@   loop 1 invariant pending(l) == 0 ==> rank(l.state) >= 0
+//@   loop 1 decreases pending(l) == 0 ? rank(l.state) + 1 : 0
+
+//@ func (*lexer).nextNonCommentItem
+//@   props C12
+//@   requires wf(l) && pending(l) == 0
+//@   modifies l.pos, l.width, l.start, l.state, chanstate(l.items)
+//@   ensures wf(l) && pending(l) == 0
+//@   ensures item.Start >= 0 && item.Start <= item.End
+//@   loop 1 invariant wf(l) && pending(l) == 0 && item.Start >= 0 && item.Start <= item.End
